@@ -47,6 +47,10 @@ type RoCase struct {
 	// of "replica" (other spellings): the node either refuses to start or is a
 	// replica in every respect
 	Mode string `json:"mode,omitempty"`
+	// PreWritable: before replication is set up, the embedding program "makes
+	// sure" the engine is writable (SetReadOnly(false) on a writable engine,
+	// that many times) - which changes nothing
+	PreWritable int `json:"pre_writable,omitempty"`
 }
 
 // unreachablePrimary is the connector of a replica whose primary is not there.
@@ -116,6 +120,9 @@ func runC16(t *testing.T, c RoCase) *kit.Result {
 		if err != nil {
 			res.V = &kit.Violation{Kind: "open-error", Signature: "open-error:first", Detail: err.Error()}
 			return
+		}
+		for i := 0; i < c.PreWritable; i++ {
+			e.SetReadOnly(false)
 		}
 		mode := replication.ReplicationModeReplica
 		if c.Mode != "" && replication.VerifHooked {
@@ -306,7 +313,13 @@ func runC16(t *testing.T, c RoCase) *kit.Result {
 			default:
 				en.Type = wal.OpTypeDelete
 			}
-			if err := applier.Apply(en); err != nil {
+			t0 := simrt.NowUnstalled()
+			err := applier.Apply(en)
+			if waited := time.Duration(simrt.NowUnstalled() - t0); waited > 10*time.Second && res.V == nil {
+				fail(&kit.Violation{Kind: "replica-apply-stalled", Signature: "replicated-entry-waited-for-clients", Detail: fmt.Sprintf("EngineApplier.Apply(%s %s) took %s of virtual time (injected stalls not counted) while clients were using the replica (open transaction handle: %v)", op.K, kit.Q(op.Key), waited, handle != "")})
+				return
+			}
+			if err != nil {
 				if isReadOnlyErr(err) {
 					fail(&kit.Violation{Kind: "replica-apply-failed", Signature: "replicated-entry-refused-as-read-only", Detail: fmt.Sprintf("EngineApplier.Apply(%s %s) on the read-only replica: %v", op.K, kit.Q(op.Key), err)})
 					return
@@ -371,6 +384,12 @@ func runC16(t *testing.T, c RoCase) *kit.Result {
 				return
 			}
 			started = true
+			if !e.IsReadOnly() && mode == replication.ReplicationModeReplica {
+				fail(&kit.Violation{Kind: "replica-left-writable", Signature: "replica-writable-after-start", Detail: fmt.Sprintf("Manager.Start in replica mode (ForceReadOnly) returned and the engine is not read-only (SetReadOnly(false) calls on the writable engine beforehand: %d)", c.PreWritable)})
+				mgr.Stop()
+				e.Close()
+				return
+			}
 			if !e.IsReadOnly() {
 				// not a replica after all (the spelling meant something else to the manager)
 				res.Probe("mode_spelling_not_a_replica")
@@ -476,6 +495,9 @@ func TestC16(t *testing.T) {
 				c.StopAt = r.Range(1, 12)
 			}
 			c.Early = c.Conc && r.Bool(0.5)
+			if r.Bool(0.15) {
+				c.PreWritable = r.Range(1, 2)
+			}
 			if r.Bool(0.08) {
 				c.Mode = kit.PickOf(r, "Replica", "REPLICA", "replica ", "rePlica", "primary-replica", "slave", "standby")
 			}
@@ -514,6 +536,6 @@ func TestC16(t *testing.T) {
 			return out
 		},
 		Strip: func(c RoCase) any { d := c; d.Sched = kit.Sched{}; return d },
-		Rule:  "a replica engine (read-only flag set, real EngineApplier) receives 1-14 replicated puts/deletes/merges while 2-24 client calls are made to methods picked from the run-time method sets of *engine.EngineFacade and the service server (bypass methods *Internal, Close, SetReadOnly, GetWAL excluded and listed in the evidence), arguments synthesised from the parameter types; either alternating phases with the full-scan fingerprint compared with the model of replicated operations after every client call, or concurrently (applier task + 1-3 client tasks, conc/dense scheduling) with the comparison at the end - this explores the applier's SetReadOnly(false)...SetReadOnly(true) window of merge entries. Calls classified mutating must return a read-only error; GetNodeInfo must report role, primary address and read-only flag of the configuration. The real replication.Manager starts the replica (primary unreachable; the entries are fed to the manager's own applier) and in 30% of the cases is stopped part-way while clients keep calling: the node must stay read-only. In half of the concurrent cases the entries start to arrive as soon as the replica's own loop runs, i.e. possibly before Manager.Start has returned. Batches have one, two or three entries, put-first or delete-first. 8% of the cases give the manager another spelling of the mode (Replica, REPLICA, standby, ...): either it refuses to start and leaves the engine writable, or the node is a replica in every respect, node information included. non-trivial = >=1 replicated entry and >=1 mutating call",
+		Rule:  "a replica engine (read-only flag set, real EngineApplier) receives 1-14 replicated puts/deletes/merges while 2-24 client calls are made to methods picked from the run-time method sets of *engine.EngineFacade and the service server (bypass methods *Internal, Close, SetReadOnly, GetWAL excluded and listed in the evidence), arguments synthesised from the parameter types; either alternating phases with the full-scan fingerprint compared with the model of replicated operations after every client call, or concurrently (applier task + 1-3 client tasks, conc/dense scheduling) with the comparison at the end - this explores the applier's SetReadOnly(false)...SetReadOnly(true) window of merge entries. Calls classified mutating must return a read-only error; GetNodeInfo must report role, primary address and read-only flag of the configuration. The real replication.Manager starts the replica (primary unreachable; the entries are fed to the manager's own applier) and in 30% of the cases is stopped part-way while clients keep calling: the node must stay read-only. In half of the concurrent cases the entries start to arrive as soon as the replica's own loop runs, i.e. possibly before Manager.Start has returned. Batches have one, two or three entries, put-first or delete-first. Every application of a replicated entry must return within 10 virtual seconds (injected stalls not counted) whatever the clients hold open. In 15% of the cases the program calls SetReadOnly(false) on the still writable engine before replication is set up (a no-op). 8% of the cases give the manager another spelling of the mode (Replica, REPLICA, standby, ...): either it refuses to start and leaves the engine writable, or the node is a replica in every respect, node information included. non-trivial = >=1 replicated entry and >=1 mutating call",
 	})
 }
